@@ -1,5 +1,6 @@
 (* C06  Include merging (logic part; completeness / precedence over whole graphs is established per run by the
    check against an independent closure fold, see DESIGN.md). *)
+From Coq Require Import String.   (* string literals of the examples; imported first so the list names win *)
 From Coq Require Import NArith ZArith List Bool.
 From DictIO Require Import Chars Str Value Scalar SDict Lexer TokParser Reader TreeSpec LayoutSpec SemProofs.
 Import ListNotations.
@@ -11,6 +12,39 @@ Theorem C06_off_no_include_entry : forall fs root com c s c',
 Proof. exact read_off_no_include. Qed.
 Print Assumptions C06_off_no_include_entry.
 
+(* non-vacuity: a two-file tree whose root has an include directive (the files include each other); with include
+   processing off the read succeeds, and the result has the root's own entries and no include placeholder *)
+Module C06_nonvacuous.
+  Definition file_a := of_string "#include 'sub/b'
+x 1;
+d { y 2; }
+".
+  Definition file_b := of_string "#include '../a'
+x 9;
+z 3;
+d { y 8; w 4; }
+".
+  Definition fs : fsys := [(of_string "/r/a", FNative file_a); (of_string "/r/sub/b", FNative file_b)].
+End C06_nonvacuous.
+Example C06_off_no_include_entry_nonvacuous :
+  exists s c', read_plain C06_nonvacuous.fs (of_string "/r/a") false true 0 = Ok (s, c') /\
+    sd_data s = [(KS (of_string "x"), Leaf (SInt 1)); (KS (of_string "d"), Dict [(KS (of_string "y"), Leaf (SInt 2))])] /\
+    forallb (fun kv => match fst kv with KS k => negb (has_include_mark k) | KI _ => true end) (sd_data s) = true.
+Proof.
+  destruct (read_plain C06_nonvacuous.fs (of_string "/r/a") false true 0) as [[s c']|e] eqn:E; [|vm_compute in E; discriminate E].
+  exists s, c'. split; [reflexivity|]. split; [vm_compute in E; injection E as <- _; reflexivity|].
+  exact (C06_off_no_include_entry _ _ _ _ _ _ E).
+Qed.
+(* the same tree with include processing on: the cyclic graph is read without running out of fuel, existing entries win
+   (x stays 1, d.y stays 2), new ones are added (z, d.w) *)
+Example C06_cyclic_graph_example :
+  exists s c', read_plain C06_nonvacuous.fs (of_string "/r/a") true true 0 = Ok (s, c') /\
+    remove_include_keys (sd_data s) =
+      [(KS (of_string "x"), Leaf (SInt 1));
+       (KS (of_string "d"), Dict [(KS (of_string "y"), Leaf (SInt 2)); (KS (of_string "w"), Leaf (SInt 4))]);
+       (KS (of_string "z"), Leaf (SInt 3))].
+Proof. eexists. eexists. split; [vm_compute; reflexivity|]. vm_compute. reflexivity. Qed.
+
 (* a file that is already on the current include chain is never parsed again: the recursion is cut there *)
 Theorem C06_chain_cut : forall p chain, in_chain p (chain ++ [p]) = true.
 Proof. exact chain_cut. Qed.
@@ -21,6 +55,16 @@ Theorem C06_anchor : forall dirc name, name <> [] -> (match name with c :: _ => 
   path_join dirc name = dirc ++ [c_slash] ++ name.
 Proof. exact include_anchor. Qed.
 Print Assumptions C06_anchor.
+
+Example C06_anchor_nonvacuous :
+  let dirc := of_string "/r/sub" in let name := of_string "../a" in
+  name <> [] /\ (match name with c :: _ => (c =? c_slash)%N = false | [] => True end) /\
+  path_join dirc name = of_string "/r/sub/../a".
+Proof.
+  intros dirc name. assert (H1 : name <> []) by discriminate.
+  assert (H2 : match name with c :: _ => (c =? c_slash)%N = false | [] => True end) by reflexivity.
+  exact (conj H1 (conj H2 (C06_anchor dirc name H1 H2))).
+Qed.
 
 (* path normalisation used to recognise a file that is reached twice is idempotent *)
 Theorem C06_norm_idem : forall p, norm_path (norm_path p) = norm_path p.
